@@ -16,14 +16,14 @@ def run(tier, deadline):
     # the library as configured here (prod, -O0) and, in the thorough tier, the quick-sized enumeration once more on the library built the way a
     # default ./configure builds it (dist: -O2, _FORTIFY_SOURCE=2, the repository's hardening flags)
     envs = {v: dict(os.environ, CAT_LIB=vbuild.build(v)) for v in (("prod",) if tier == "quick" else ("prod", "dist"))}
-    sets = [("%ndslh5.x", 5), ("%n[]^s", 5), ("%nmZqd", 5), ("%n$12s", 5)] if tier == "quick" else [("%ndslh5.x", 7), ("%n[]^sd", 7), ("%n*c-Ljztd", 6), ("%nmZqIs'", 6), ("%n$12sh", 7)]
+    sets = [("%ndslh5.x", 5), ("%n[]^s", 5), ("%n[]^", 7), ("%nwlh", 5), ("%nmZqd", 5), ("%n$12s", 5)] if tier == "quick" else [("%ndslh5.x", 7), ("%n[]^sd", 7), ("%n[]^", 9), ("%nwlhLq", 6), ("%n*c-Ljztd", 6), ("%nmZqIs'", 6), ("%n$12sh", 7)]
     jobs = []
     for alpha, L in sets:
         nsh = 16 if len(alpha) ** L > 50000 else 2
         for fam in ("narrow", "wide"):
             for sh in range(nsh): jobs.append([fam, str(L), alpha, str(sh), str(nsh)])
     def mkjobs(tier):
-        sets = [("%ndslh5.x", 5), ("%n[]^s", 5), ("%nmZqd", 5), ("%n$12s", 5)] if tier == "quick" else [("%ndslh5.x", 7), ("%n[]^sd", 7), ("%n*c-Ljztd", 6), ("%nmZqIs'", 6), ("%n$12sh", 7)]
+        sets = [("%ndslh5.x", 5), ("%n[]^s", 5), ("%n[]^", 7), ("%nwlh", 5), ("%nmZqd", 5), ("%n$12s", 5)] if tier == "quick" else [("%ndslh5.x", 7), ("%n[]^sd", 7), ("%n[]^", 9), ("%nwlhLq", 6), ("%n*c-Ljztd", 6), ("%nmZqIs'", 6), ("%n$12sh", 7)]
         jobs = []
         for alpha, L in sets:
             nsh = 16 if len(alpha) ** L > 50000 else 2
